@@ -20,7 +20,6 @@ Definition E_NOTENOUGH : Z := 3.
 Definition E_UNKNOWN : Z := 4.
 (* panic sites = line numbers in submessage_elements.rs *)
 Definition P_FNSET_INDEX : Z := 151.   (* bitmap[delta_n / 32], index 8 of [i32; 8] *)
-Definition P_FNSET_ADD : Z := 152.     (* base + delta_n as u32 overflows *)
 Definition P_SNSET_NEW : Z := 28.      (* sequence_number - base overflows / index in new() *)
 Definition P_FNSET_NEW : Z := 121.     (* fragment_number - base underflows / index in new() *)
 Definition P_SNSET_ITER : Z := 63.     (* set(): base + delta_n as i64 overflows *)
@@ -157,25 +156,26 @@ Definition read_snset (le : bool) : parser snset :=
   ws <~ read_bitmap le nb ;;
   pret (mk_snset base nb ws).
 
-(* the loop `for delta_n in 0..num_bits as usize` of FragmentNumberSet::try_read_from_bytes.
-   Iteration 256 always panics (index 8 of [i32; 8]), so the loop never runs past it and
-   the fuel may be capped at 257 (num_bits itself can be 2^32-1). *)
+(* the loop `for delta_n in 0..num_bits as usize` of FragmentNumberSet::try_read_from_bytes
+   (num_bits <= 256 is checked before, fix 221c5f8): bitmap[delta_n / 32] is still an indexing
+   of [i32; 8]; base.checked_add(delta_n) returns InvalidData on overflow *)
 Fixpoint fn_collect (base : Z) (ws : list Z) (n : nat) (i : Z) : res (list Z) :=
   match n with
   | O => Ok []
   | S k =>
       if 8 <=? i / 32 then Panic P_FNSET_INDEX else
       if bit_set ws i then
-        if base + i >? u32_max then Panic P_FNSET_ADD
+        if base + i >? u32_max then Err E_INVALID
         else r <- fn_collect base ws k (i + 1) ;; Ok (base + i :: r)
       else fn_collect base ws k (i + 1)
   end.
 Definition read_fnset (le : bool) : parser fnset :=
   base <~ read_u32 le ;;
   nb <~ read_u32 le ;;
+  if nb >? 256 then perr E_INVALID else
   ws <~ read_bitmap le nb ;;
-  _ <~ ptick (FNSET_CAP + Z.max 0 (Z.min nb 257)) ;;
-  set <~ plift (fn_collect base ws (Z.to_nat (Z.min nb 257)) 0) ;;
+  _ <~ ptick (FNSET_CAP + Z.max 0 nb) ;;
+  set <~ plift (fn_collect base ws (Z.to_nat nb) 0) ;;
   plift (fnset_new base set).
 
 (* Encoders take the endianness e; dust-dds itself only writes e = true (to_le_bytes).
@@ -403,7 +403,14 @@ Record hdr : Type := mk_hdr { h_version : list Z; h_vendor : list Z; h_prefix : 
 
 Definition sublen_of (fl b2 b3 : Z) : Z := if is_le fl then b2 + 256 * b3 else 256 * b2 + b3.
 
-(* the `for _ in 0..MAX_SUBMESSAGES` loop of RtpsMessageRead::try_from *)
+Definition is_data_id (id : Z) : bool := (id =? ID_DATA) || (id =? ID_DATA_FRAG).
+(* bytes handed to the parser: exactly submessage_length of them; a DATA / DATA_FRAG of length 0
+   extends to the end of the datagram (decided on the id, before parsing) *)
+Definition body_len_of (id sublen : Z) (v' : list Z) : Z :=
+  if (sublen =? 0) && is_data_id id then len v' else sublen.
+
+(* the `for _ in 0..MAX_SUBMESSAGES` loop of RtpsMessageRead::try_from (after fix 0cb9fa7):
+   split_at(submessage_length), parse the first part, always continue with the rest *)
 Fixpoint sub_loop (fuel : nat) (v : list Z) : res (list psub) * Z :=
   match fuel with
   | O => (Ok [], 0)
@@ -412,15 +419,15 @@ Fixpoint sub_loop (fuel : nat) (v : list Z) : res (list psub) * Z :=
       | id :: fl :: b2 :: b3 :: v' =>
           let sublen := sublen_of fl b2 b3 in
           if shorter v' sublen then (Ok [], 5) else
-          match parse_sub id fl sublen v' with
+          let n := Z.to_nat (body_len_of id sublen v') in
+          match parse_sub id fl sublen (firstn n v') with
           | (Panic x, c) => (Panic x, 5 + c)
           | (Err _, c) =>
-              match sub_loop k (skipn (Z.to_nat sublen) v') with
+              match sub_loop k (skipn n v') with
               | (r, c') => (r, 5 + c + c')
               end
           | (Ok sm, c) =>
-              let consumed := if (sublen =? 0) && is_data sm then len v' else sublen in
-              match sub_loop k (skipn (Z.to_nat consumed) v') with
+              match sub_loop k (skipn n v') with
               | (Ok l, c') => (Ok (sm :: l), 5 + c + SUB_SIZE + c')
               | (r, c') => (r, 5 + c + SUB_SIZE + c')
               end
@@ -659,75 +666,6 @@ Fixpoint lengths_exact (e : bool) (ids : list Z) (v : list Z) : bool :=
       end
   end.
 
-(* -------------------------------------------------- C07: known panic / cost classes *)
-(* the (id, flags, submessage_length, slice after the header) the loop hands to the parsers *)
-Fixpoint visits (fuel : nat) (v : list Z) : list (Z * Z * Z * list Z) :=
-  match fuel with
-  | O => []
-  | S k =>
-      match v with
-      | id :: fl :: b2 :: b3 :: v' =>
-          let sublen := sublen_of fl b2 b3 in
-          if shorter v' sublen then [] else
-          (id, fl, sublen, v') ::
-          match fst (parse_sub id fl sublen v') with
-          | Panic _ => []
-          | Err _ => visits k (skipn (Z.to_nat sublen) v')
-          | Ok sm => visits k (skipn (Z.to_nat (if (sublen =? 0) && is_data sm then len v' else sublen)) v')
-          end
-      | _ => []
-      end
-  end.
-Definition message_visits (v : list Z) : list (Z * Z * Z * list Z) :=
-  if shorter v 20 then [] else if negb (list_eqb (firstn 4 v) RTPS_MAGIC) then [] else
-  visits MAX_SUBMESSAGES (skipn 20 v).
-
-(* D11: a NACK_FRAG whose FragmentNumberSet is complete on the wire (base, numBits and
-   min(8, ceil(numBits/32)) bitmap words after the 16 bytes of ids and writerSN) and has
-   numBits > 256, or a set bit i < numBits with base + i > u32::MAX *)
-Fixpoint words_at (le : bool) (n : nat) (s : list Z) : list Z :=
-  match n with
-  | O => []
-  | S k => to_signed 32 (dec_int le (firstn 4 s)) :: words_at le k (skipn 4 s)
-  end.
-Definition iota (n : Z) : list Z := map Z.of_nat (seq 0 (Z.to_nat n)).
-Definition fnset_bad (le : bool) (body : list Z) : bool :=
-  let s := skipn 16 body in
-  if shorter body 24 then false else
-  let base := dec_int le (firstn 4 s) in
-  let nb := dec_int le (firstn 4 (skipn 4 s)) in
-  let m := Z.min 8 (div_ceil32 nb) in
-  if shorter s (8 + 4 * m) then false else
-  let ws := pad8 (words_at le (Z.to_nat m) (skipn 8 s)) in
-  (256 <? nb) || existsb (fun i => bit_set ws i && (u32_max <? base + i)) (iota (Z.min nb 256)).
-Definition C07_known_fnset (v : list Z) : bool :=
-  existsb (fun x => match x with (id, fl, _, body) =>
-                      if id =? ID_NACK_FRAG then fnset_bad (is_le fl) body else false end)
-          (message_visits v).
-
-(* INFO_REPLY reads its locator lists from the whole rest of the datagram, not from its
-   own submessage_length bytes: a locator count that does not fit in the submessage *)
-Definition locs_overread (le : bool) (mflag : bool) (sublen : Z) (body : list Z) : bool :=
-  if shorter body 4 then false else
-  let n1 := dec_int le (firstn 4 body) in
-  if sublen <? 24 * n1 then true else
-  if negb mflag then false else
-  let s2 := skipn (Z.to_nat (4 + 24 * n1)) body in
-  if shorter s2 4 then false else
-  sublen <? 24 * dec_int le (firstn 4 s2).
-Definition C07_known_overread (v : list Z) : bool :=
-  existsb (fun x => match x with (id, fl, sublen, body) =>
-                      if id =? ID_INFO_REPLY then locs_overread (is_le fl) (flag fl 1) sublen body else false end)
-          (message_visits v).
-
-(* a DATA / DATA_FRAG with submessage_length 0 ("until the end of the datagram") whose parse
-   fails: nothing is consumed and the loop goes on inside bytes it has already scanned *)
-Definition C07_known_rescan (v : list Z) : bool :=
-  existsb (fun x => match x with (id, fl, sublen, body) =>
-                      if ((id =? ID_DATA) || (id =? ID_DATA_FRAG)) && (sublen =? 0)
-                      then negb (is_ok (fst (parse_sub id fl sublen body))) else false end)
-          (message_visits v).
-
-(* the linear bound claimed outside the over-read class *)
+(* -------------------------------------------------- C07: the linear bounds claimed *)
 Definition COST_C : Z := 400.
 Definition COST_K : Z := 64.
